@@ -32,9 +32,12 @@ def handle (toks : List String) (impl : Option String) : Option (String × Strin
             (match a.splitOn " " with | [_, saved, v] => (saved == "-" || saved == "efbbbf") && v == "[]" | _ => false) then
           "known:csv-empty-array-unloadable"
         else "bad:" ++ ((a.splitOn " ").headD "?")
+      | ["enc.rt", _arch, _enc, _bom, _seed, _delta] =>
+        -- a table saved to a stream in any of the five encodings is read back unchanged, whatever its size relative to the chunk
+        if a.startsWith "same " then "ok" else "bad:" ++ ((a.splitOn " ").headD "?")
       | _ => "nospec"
   match toks with
-  | t :: _ => if t == "load.any" || t == "rt.any" then some (a, verdict) else none
+  | t :: _ => if t == "load.any" || t == "rt.any" || t == "enc.rt" then some (a, verdict) else none
   | [] => none
 
 end BSVerif.Driver.Load
